@@ -310,6 +310,21 @@ class Inliner:
             return [st]
         if depth >= MAX_DEPTH:
             return [st]
+        # `if helper(...):` with a statement helper: the call gets a statement
+        # of its own, which is then inlined
+        if isinstance(st, (ast.If, ast.While)) and isinstance(st.test, ast.Call) \
+                and isinstance(st, ast.If):
+            res = self.resolve(st.test)
+            if res is not None and res[0].name != owner and \
+                    expression_form(res[0]) is None and not _has_yield(res[0]):
+                tmp = f"_h{next(_counter)}_test"
+                assign = ast.copy_location(
+                    ast.Assign(targets=[ast.Name(id=tmp, ctx=ast.Store())],
+                               value=st.test, lineno=st.lineno), st)
+                st.test = ast.copy_location(ast.Name(id=tmp, ctx=ast.Load()),
+                                            st.test)
+                ast.fix_missing_locations(assign)
+                return self._block([assign], depth + 1, owner) + [st]
         # statement-level inlining: the call is the whole value
         top = None
         if isinstance(st, ast.Return) and isinstance(st.value, ast.Call):
